@@ -1,4 +1,5 @@
 import Okane.Lemmas.C13Perm
+import Okane.Lemmas.C13CmdReport
 /-!
 # C13 — same input, same output: runs are deterministic
 
@@ -20,6 +21,14 @@ sort that covers it):
 
 The end-to-end statements `C13_<command>` are `Prop`s (section EndToEnd); the process-level stream of `bin/check C13`
 observes them on the real binary.
+
+Section Commands lifts the per-operation results to the command models (`Lemmas/C13Cmd*.lean`): `st ≈ₚ st'` — the
+accumulator of `process` up to the layout of every hash map in it (intern stores, formats, the balance and each of
+its amounts, the amounts of the evaluated postings; price events up to the order of their two sides) — is preserved by
+`process`, with the same error (`C13_process`, `C13_process_relayout`), and the lines printed by `balance` (whole
+history and date ranges, no conversion), `accounts`, `register` are *equal* for related ledgers, so that the text of
+each command as a function of the entry list does not depend on any layout (`C13_balance_cmd`, `C13_accounts_cmd`,
+`C13_register_cmd`: instances of `C13_balance` / `C13_accounts` / `C13_register`).
 -/
 set_option linter.unusedSectionVars false
 set_option linter.unusedSimpArgs false
@@ -282,6 +291,7 @@ trivially true (the raw operations *are* order-sensitive) -/
 section Examples
 
 def showNat (c : Nat) (v : Rat) : String := toString v ++ " C" ++ toString c
+def showNat' (c : String) (v : Rat) : String := toString v ++ " " ++ c
 
 private def a3 : Amount Nat := [(2, 10), (1, -3), (3, 5)]
 private def a3' : Amount Nat := [(3, 5), (2, 10), (1, -3)]
@@ -402,4 +412,161 @@ theorem C13_balance_report {α κ : Type} [DecidableEq α] [DecidableEq κ]
       balanceReport_reorder hoA hoK showAcct showEntry (π₂.2.1 b.1).symm b.2 π₂.1.2 π₂.2.2]
 
 end EndToEnd
+
+/-! ## Commands: book-keeping and the reports on the command models
+
+`st ≈ₚ st'` (`ProcEq`): the two accumulators of `process` are the same up to the order of the entries of every hash map
+they contain.  `≈ₘ` is the relation on one map, `≈ᵦ` on a map of maps (the balance), `ErrEq` on book-keeping errors
+(the amounts an error carries are the same maps), `ORel` on outcomes (same constructor, related payload, same panic
+site).  The lemmas are in `Lemmas/C13CmdBase.lean` (amounts, evaluated values), `C13CmdBook.lean` (`process_posting`,
+`check_balance`, `add_transaction`), `C13CmdProcess.lean` (intern stores, evaluation, `process`), `C13CmdReport.lean`
+(the reports). -/
+section Commands
+
+/-- **C13_process.**  Book-keeping of an entry list maps related accumulators to related accumulators; when it
+fails, it fails at the same entry with the same error (up to the layout of the amounts in it); it reaches the same
+panic site / runs out of fuel in both runs or in neither. -/
+theorem C13_process (es : List Entry) {st st' : ProcState} (h : st ≈ₚ st') (i : Nat) :
+    ORel PErrEq ProcEq (processFrom st i es) (processFrom st' i es) := processFrom_meq es h i
+
+/-- … and the message of that error is the same text. -/
+theorem C13_process_error_text {leK : String → String → Bool} (hoK : KeyOrder leK) (showEntry : String → Rat → String)
+    (es : List Entry) {st st' : ProcState} (h : st ≈ₚ st') (i : Nat) {x x' : Nat × BkErrS}
+    (hx : processFrom st i es = .err x) (hx' : processFrom st' i es = .err x') :
+    x.1 = x'.1 ∧ bkErrText leK showEntry x.2 = bkErrText leK showEntry x'.2 := by
+  have := C13_process es h i
+  rw [hx, hx'] at this
+  exact ⟨this.1, this.2.text hoK showEntry⟩
+
+/-- one entry (`ProcessAccumulator::process`), one transaction (`add_transaction`), one posting
+(`process_posting` after evaluation), `check_balance`, and evaluation (`eval_mut`) separately. -/
+theorem C13_stepEntry {st st' : ProcState} (h : st ≈ₚ st') (e : Entry) :
+    ORel ErrEq ProcEq (stepEntry st e) (stepEntry st' e) := stepEntry_meq h e
+
+theorem C13_addTransaction {c c' : Ctx} (hc : CtxEq c c') {bal bal' : Balance String String} (hb : bal ≈ᵦ bal')
+    (t : Transaction) : ORel ErrEq CtxRes (addTransactionSyntax c bal t) (addTransactionSyntax c' bal' t) :=
+  addTransactionSyntax_meq hc hb t
+
+theorem C13_addTransaction_resolved {α κ : Type} [DecidableEq α] [DecidableEq κ] (prec : κ → Option Nat)
+    {bal bal' : Balance α κ} (h : bal ≈ᵦ bal') (t : RTxn α κ) :
+    ORel ErrEq TxnResEq (addTransaction prec bal t) (addTransaction prec bal' t) := addTransaction_meq prec h t
+
+theorem C13_processPosting {α κ : Type} [DecidableEq α] [DecidableEq κ] {bal bal' : Balance α κ} (h : bal ≈ᵦ bal')
+    (date : Date) (idx : Nat) (p : RPosting α κ) :
+    ORel ErrEq PPRel (processPosting bal date idx p) (processPosting bal' date idx p) :=
+  processPosting_meq h date idx p
+
+theorem C13_checkBalance {α κ : Type} [DecidableEq α] [DecidableEq κ] (prec : κ → Option Nat) (date : Date)
+    {ps ps' : List (OutPosting α κ)} (hps : PostsEq ps ps') {bal bal' : Amount κ} (h : bal ≈ₘ bal') :
+    ORel ErrEq CBRel (checkBalance prec date ps bal) (checkBalance prec date ps' bal') :=
+  checkBalance_meq prec date hps h
+
+theorem C13_evalMut (e : VExpr) {s s' : Store} (h : StoreEq s s') :
+    ORel (· = ·) EvStore (evalMut s e) (evalMut s' e) := evalMut_meq e h
+
+/-- **C13_process with explicit layouts.**  `processScr π` is `process` in which every hash map of the accumulator is
+laid out afresh (`π i`) after entry `i`; for any two layout histories the results are related and the errors the
+same. -/
+theorem C13_process_relayout {π₁ π₂ : Nat → ProcState → ProcState} (h1 : Relayout π₁) (h2 : Relayout π₂)
+    (es : List Entry) :
+    ORel PErrEq ProcEq (processScr π₁ {} 0 es) (processScr π₂ {} 0 es) := processScr_meq h1 h2 es ProcEq.init 0
+
+/-- the reports of two related ledgers are equal, line by line. -/
+theorem C13_balance_lines {leA leK : String → String → Bool} (hoA : KeyOrder leA) (hoK : KeyOrder leK)
+    (showAcct : String → String) (showEntry : String → Rat → String) (r : DateRange) {st st' : ProcState}
+    (h : st ≈ₚ st') :
+    balanceLines leA leK showAcct showEntry r st = balanceLines leA leK showAcct showEntry r st' :=
+  balanceLines_meq hoA hoK showAcct showEntry r h
+
+theorem C13_accounts_lines {leA : String → String → Bool} (hoA : KeyOrder leA) {st st' : ProcState} (h : st ≈ₚ st') :
+    accountsLines leA st = accountsLines leA st' := accountsLines_meq hoA h
+
+theorem C13_register_lines {leK : String → String → Bool} (hoK : KeyOrder leK) (showAcct : String → String)
+    (showEntry : String → Rat → String) (acct : Option String) {st st' : ProcState} (h : st ≈ₚ st') :
+    registerLines leK showAcct showEntry acct st = registerLines leK showAcct showEntry acct st' :=
+  registerLines_meq hoK showAcct showEntry acct h
+
+/-- **C13_balance_cmd**: `okane balance` (whole history or `--start` … `--end`, no `-X`) on the model — the lines on
+success, the entry index and message on failure — is a function of the entry list: an instance of `C13_balance`
+with the layout history as the orders. -/
+theorem C13_balance_cmd {leA leK : String → String → Bool} (hoA : KeyOrder leA) (hoK : KeyOrder leK)
+    (showAcct : String → String) (showEntry : String → Rat → String) (r : DateRange) :
+    C13_balance (Orders := { π : Nat → ProcState → ProcState // Relayout π }) (Input := List Entry)
+      (fun π es => balanceCmd leA leK showAcct showEntry r π.1 es) :=
+  fun π₁ π₂ es => balanceCmd_det hoA hoK showAcct showEntry r π₁.2 π₂.2 es
+
+/-- **C13_accounts_cmd** -/
+theorem C13_accounts_cmd {leA leK : String → String → Bool} (hoA : KeyOrder leA) (hoK : KeyOrder leK)
+    (showEntry : String → Rat → String) :
+    C13_accounts (Orders := { π : Nat → ProcState → ProcState // Relayout π }) (Input := List Entry)
+      (fun π es => accountsCmd leA leK showEntry π.1 es) :=
+  fun π₁ π₂ es => accountsCmd_det hoA hoK showEntry π₁.2 π₂.2 es
+
+/-- **C13_register_cmd** -/
+theorem C13_register_cmd {leK : String → String → Bool} (hoK : KeyOrder leK) (showAcct : String → String)
+    (showEntry : String → Rat → String) (acct : Option String) :
+    C13_register (Orders := { π : Nat → ProcState → ProcState // Relayout π }) (Input := List Entry)
+      (fun π es => registerCmd leK showAcct showEntry acct π.1 es) :=
+  fun π₁ π₂ es => registerCmd_det hoK showAcct showEntry acct π₁.2 π₂.2 es
+
+/-! ### non-vacuity: a ledger with three commodities in one account, an omitted posting, an alias and a format;
+two layout histories (`id`, "reverse every map after every entry") that really produce different accumulators -/
+
+private def mkAmt (v : Int) (c : String) : VExpr := .amt ⟨decide (v < 0), v.natAbs, 0, none⟩ c
+private def post (a : String) (v : Int) (c : String) : Posting := { account := a, amount := some { amount := mkAmt v c } }
+def exLedger : List Entry :=
+  [ .commodity "USD" [.format ⟨false, 100, 2, none⟩ "USD"],
+    .account "Equity:Opening" [.alias "EO"],
+    .txn { date := ⟨2024, 1, 1⟩, posts :=
+      [post "Assets:Bank" 100 "USD", post "Assets:Bank" 200 "EUR", post "Assets:Broker" 3 "ACME", { account := "EO" }] },
+    .txn { date := ⟨2024, 1, 2⟩, posts := [post "Expenses:Food" 10 "USD", post "Assets:Bank" (-10) "USD"] } ]
+
+def πid : { π : Nat → ProcState → ProcState // Relayout π } := ⟨fun _ st => st, relayout_id⟩
+def πrev : { π : Nat → ProcState → ProcState // Relayout π } := ⟨fun _ st => relayoutRev st, relayout_rev⟩
+
+/-- the two runs succeed and end with different lists for the balance (so `≈ₚ` is not `=` here) … -/
+example : (match processScr πid.1 {} 0 exLedger, processScr πrev.1 {} 0 exLedger with
+    | .ok st, .ok st' => decide (st.bal ≠ st'.bal ∧ st.bal.length = 4) | _, _ => false) = true := by decide +kernel
+
+/-- … are related … -/
+example : ORel PErrEq ProcEq (processScr πid.1 {} 0 exLedger) (processScr πrev.1 {} 0 exLedger) :=
+  C13_process_relayout πid.2 πrev.2 exLedger
+
+/-- … and print the same. -/
+example : balanceCmd (fun a b => decide (a ≤ b)) (fun a b => decide (a ≤ b)) id showNat' {} πid.1 exLedger =
+    balanceCmd (fun a b => decide (a ≤ b)) (fun a b => decide (a ≤ b)) id showNat' {} πrev.1 exLedger :=
+  C13_balance_cmd keyOrder_string keyOrder_string id showNat' {} πid πrev exLedger
+
+example : registerCmd (fun a b => decide (a ≤ b)) id showNat' (some "Assets:Bank") πid.1 exLedger =
+    registerCmd (fun a b => decide (a ≤ b)) id showNat' (some "Assets:Bank") πrev.1 exLedger :=
+  C13_register_cmd keyOrder_string id showNat' _ πid πrev exLedger
+
+example : accountsCmd (fun a b => decide (a ≤ b)) (fun a b => decide (a ≤ b)) showNat' πid.1 exLedger =
+    accountsCmd (fun a b => decide (a ≤ b)) (fun a b => decide (a ≤ b)) showNat' πrev.1 exLedger :=
+  C13_accounts_cmd keyOrder_string keyOrder_string showNat' πid πrev exLedger
+
+/-- an unbalanced three-commodity transaction is rejected in both runs with related residuals (same text). -/
+def exBad : List Entry :=
+  [ .txn { date := ⟨2024, 1, 1⟩, posts := [post "A" 1 "USD", post "B" 2 "EUR", post "C" 3 "CHF"] } ]
+
+example : (match processScr πrev.1 {} 0 exBad with
+    | .err (0, .unbalanced r) => decide (r.length = 3) | _ => false) = true := by decide +kernel
+
+example : ORel PErrEq ProcEq (processScr πid.1 {} 0 exBad) (processScr πrev.1 {} 0 exBad) :=
+  C13_process_relayout πid.2 πrev.2 exBad
+
+/-- `≈ₘ` and `≈ᵦ` relate genuinely different lists. -/
+example : ([(2, 10), (1, -3), (3, 5)] : Amount Nat) ≈ₘ [(3, 5), (2, 10), (1, -3)] :=
+  ⟨by simp [AMap.WF, AMap.keys], by decide⟩
+
+example : ([(7, [(2, 10), (1, -3)]), (8, [(3, 5)])] : Balance Nat Nat) ≈ᵦ [(8, [(3, 5)]), (7, [(1, -3), (2, 10)])] := by
+  refine ⟨by simp [AMap.WF, AMap.keys], by simp [AMap.WF, AMap.keys], fun a => ?_⟩
+  by_cases h7 : 7 = a
+  · subst h7
+    exact ⟨by simp [AMap.WF, AMap.keys], by decide⟩
+  · by_cases h8 : 8 = a
+    · subst h8; exact ⟨by simp [AMap.WF, AMap.keys], by decide⟩
+    · simp [AMap.get?, h7, h8, OptRel]
+
+end Commands
 end Okane.C13
